@@ -219,7 +219,16 @@ def _lattice_chunk(rng):
             elif obs[1] != c["nr"] or not close(obs[2], float(cut)):
                 bad.append((idx, "commensurate", grid, "%s: cutoff = %d x step must give %d rows ending at %s; got nr=%s cutoff=%s" % (
                     lines, c["k"], c["nr"], decstr(cut), obs[1], obs[2]), None))
-            elif idx % 211 == 0 and c["nr"] >= 3 and c["nr"] <= 3000:
+            else:
+                # the other two spellings of the same grid: the row count with the step (the cutoff is their product), the row
+                # count with the cutoff
+                for lines2 in (["%s : %d" % (n_nr, c["nr"]), "%s : %s" % (n_dr, decstr(dr))], ["%s : %d" % (n_nr, c["nr"]), "%s : %s" % (n_cut, decstr(cut))]):
+                    obs3, text3 = observe_parser(lines2, grid)
+                    n += 1
+                    if obs3[0] != "accept" or obs3[1] != c["nr"] or not close(obs3[2], float(cut)):
+                        bad.append((idx, "commensurate", grid, "%s: %d rows of step %s end at %s; got %s" % (lines2, c["nr"], decstr(dr), decstr(cut), obs3[1:]), None))
+                        break
+            if not bad and idx % 211 == 0 and c["nr"] >= 3 and c["nr"] <= 3000:
                 obs2, text2 = observe_table(lines, grid, "LAMMPS" if grid == "r" else "setfl")
                 n += 1
                 if obs2[0] != "accept" or obs2[1] != c["nr"] or not close(obs2[2], float(cut)) or not close(obs2[3], float(dr)):
